@@ -24,6 +24,7 @@ type coop struct {
 	deadlock    bool
 	deadlockMsg string
 	events      []string // observation log (scheduling decisions + lock events)
+	misuse      []string // the group lock was released by a thread that does not hold it
 
 	mutexIDs map[*syncshim.Mutex]int
 	done     chan struct{}
@@ -170,7 +171,16 @@ func (c *coop) Lock(m *syncshim.Mutex) {
 func (c *coop) Unlock(m *syncshim.Mutex) {
 	t := c.me()
 	if m.Owner != t.id+1 {
-		panic(fmt.Sprintf("coop: unlock of mutex#%d by %s, owner %d", c.mutexIDs[m], t.name, m.Owner-1))
+		// sync.Mutex has no owner: the real runtime releases a mutex another goroutine holds (that
+		// goroutine's critical section is no longer exclusive) and aborts the process with "fatal error:
+		// sync: unlock of unlocked mutex" if nobody holds it. Either way the group lock stopped doing
+		// its job: record it as a finding of this schedule instead of crashing the explorer.
+		if m.Owner == 0 {
+			c.misuse = append(c.misuse, fmt.Sprintf("%s unlocks mutex#%d which nobody holds (fatal error in the real runtime)", t.name, c.mutexIDs[m]))
+			c.yield(t, fmt.Sprintf("unlock mutex#%d", c.mutexIDs[m]))
+			return
+		}
+		c.misuse = append(c.misuse, fmt.Sprintf("%s unlocks mutex#%d held by %s", t.name, c.mutexIDs[m], c.threads[m.Owner-1].name))
 	}
 	m.Owner = 0
 	c.yield(t, fmt.Sprintf("unlock mutex#%d", c.mutexIDs[m]))
